@@ -2,11 +2,11 @@
 from .common import pipeline_for, combined
 
 LEVEL = 'other'
-RULES = ('S-OWN', 'S-ROLE', 'M1', 'R02.d', 'R03.b', 'R03.d', 'R04.d', 'R01.b', 'R03.c', 'R14.t')
+RULES = ('S-OWN', 'S-ROLE', 'M1', 'R02.d', 'R03.b', 'R03.d', 'R04.d', 'R01.b', 'R03.c', 'R14.t', 'R01.c', 'R10.s')
 
 
 def run(prog, rec, tier):
-    combined(prog, rec, tier, RULES, driver=('sequence', 'layout', 'reader'), pipe=True, monitor=True, spawn=True, modes=('isolation',),
+    combined(prog, rec, tier, RULES, driver=('sequence', 'layout', 'reader'), pipe=True, monitor=True, spawn=True, modes=('isolation', 'steps'),
                  explanation='Every read and write of a chunk buffer field, in the worker role and in the I/O role, happens while the '
                  'token value makes that role the exclusive owner of the same index (disjoint ownership sets derived from an inferred '
                  'rely/guarantee pair); token written only under its mutex; INV terminal; worker i uses only buffer i; monotone cursor.')
